@@ -11,7 +11,11 @@ pub open spec fn apply_entry_ok(k: (BddPtr, BddPtr, BddPtr), s: BddPtr, o: VarOr
     &&& forall|env: Env| #[trigger] tr(env) ==> ptr_sem(s, env) == ite3(ptr_sem(k.0, env), ptr_sem(k.1, env), ptr_sem(k.2, env))
     &&& ordered(s, o)
     &&& top(s, o) >= min3(top(k.0, o), top(k.1, o), top(k.2, o))
-    &&& (canon(k.0) && canon(k.1) && canon(k.2) ==> canon(s))
+}
+/// ... and its canonical-form part (C02)
+#[verifier::opaque]
+pub open spec fn apply_entry_canon(k: (BddPtr, BddPtr, BddPtr), s: BddPtr) -> bool {
+    res_canon(k.0, k.1, k.2, s)
 }
 
 #[verifier::external_body]
@@ -32,7 +36,7 @@ impl<'a, T: IteTable<BddPtr<'a>>> RobddBuilder<'a, T> {
     pub fn apply_view(&self) -> (r: &T)
         ensures
             r.wf(),
-            forall|k: (BddPtr<'a>, BddPtr<'a>, BddPtr<'a>), s: BddPtr<'a>| #[trigger] r.entries().contains((k, s)) ==> apply_entry_ok(k, s, self.order_view()),
+            forall|k: (BddPtr<'a>, BddPtr<'a>, BddPtr<'a>), s: BddPtr<'a>| #[trigger] r.entries().contains((k, s)) ==> apply_entry_ok(k, s, self.order_view()) && apply_entry_canon(k, s),
     { unimplemented!() }
 
     /// stands for `self.apply_table.borrow_mut().insert(ite, res, hash)`; by the IteTable::insert contract the
@@ -42,6 +46,7 @@ impl<'a, T: IteTable<BddPtr<'a>>> RobddBuilder<'a, T> {
         requires
             hash == T::hash_spec(ite),
             !(ite is IteConst) ==> apply_entry_ok(ite_key(ite), ite_stored(ite, res), self.order_view()),
+            !(ite is IteConst) ==> apply_entry_canon(ite_key(ite), ite_stored(ite, res)), // #C02
     { unimplemented!() }
 
     #[verifier::external_body]
